@@ -15,6 +15,7 @@ def families : List (List String × (List String → String → Verdict)) := [
   (["song"], Song.handle),
   (["filter"], Filter.handle),
   (["typed"], Typed.handle),
+  (["loop"], Loop.handle),
 ]
 
 def dispatch (line : String) : String :=
